@@ -1601,7 +1601,11 @@ func (p *CodeBuilder) IncDec(op token.Token, src ...ast.Node) *CodeBuilder {
 	}
 	pkg := p.pkg
 	arg := p.stk.Pop()
-	if t, ok := arg.Type.(*refType).typ.(*types.Named); ok {
+	ref, ok := arg.Type.(*refType)
+	if !ok { // the blank identifier (VarRef(nil)) has no type
+		p.panicCodeError(getPos(src), getEnd(src), "cannot use _ as value")
+	}
+	if t, ok := ref.typ.(*types.Named); ok {
 		op := lookupMethod(t, name)
 		if op != nil {
 			fn := &internal.Elem{
@@ -1671,7 +1675,11 @@ func callAssignOp(pkg *Package, tok token.Token, args []*internal.Elem, src []as
 	if debugInstr {
 		log.Println("AssignOp", tok, name)
 	}
-	if t, ok := args[0].Type.(*refType).typ.(*types.Named); ok {
+	ref, ok := args[0].Type.(*refType)
+	if !ok { // the blank identifier (VarRef(nil)) has no type
+		pkg.cb.panicCodeError(getPos(src), getEnd(src), "cannot use _ as value")
+	}
+	if t, ok := ref.typ.(*types.Named); ok {
 		op := lookupMethod(t, name)
 		if op != nil {
 			fn := &internal.Elem{
@@ -1687,7 +1695,7 @@ func callAssignOp(pkg *Package, tok token.Token, args []*internal.Elem, src []as
 	}
 	op := pkg.builtin.Ref(name)
 	if tok == token.QUO_ASSIGN {
-		checkDivisionByZero(&pkg.cb, &internal.Elem{Val: args[0].Val, Type: args[0].Type.(*refType).typ}, args[1])
+		checkDivisionByZero(&pkg.cb, &internal.Elem{Val: args[0].Val, Type: ref.typ}, args[1])
 	}
 	fn := &internal.Elem{
 		Val: ident(op.Name()), Type: op.Type(),
